@@ -387,7 +387,7 @@ def container_ops(self_move=False, node_forms=True):
     nopatch = st.integers(0, len(POOL) - 1).flatmap(lambda i: st.tuples(
         st.just("nopatch"), ctgt, st.just(i), G.model_recipe(pool_class(i)[3], 1, dates="date", objects=False),
         st.sampled_from(["attach", "attach", "attach", "detach", "set", "setattr"])))
-    bnd = st.one_of(bnd, bnd, bnd, nopatch, nopatch, st.just(("detach_all",)))
+    bnd = st.one_of(bnd, bnd, bnd, nopatch, nopatch, st.just(("detach_all",)), st.tuples(st.just("del_root"), cref))
     # a patch that consists of exactly one small change (between two boundaries)
     one = st.one_of(st.tuples(st.just("setattr"), st.just("/"), st.sampled_from(["k", "u"]), cvalue),
                     st.tuples(st.just("delattr"), st.just("/"), cref),
@@ -683,6 +683,16 @@ class CSession:
             self.step([op[3]])
             self.classes.add("single_change_patch")
             return
+        elif kind == "del_root":
+            # deleting the root group is refused on a plain tree (and must not cost anything here either)
+            groups = tree.paths("g")
+            recv = groups[op[1] % len(groups)]
+
+            def fm(model):
+                raise OpFails("the root cannot be deleted")
+
+            self.run_all(lambda ti, t: self._node(t.mc, recv).__delitem__("/"), fm, "del:root", dict(recv=recv))
+            self.classes.add("delete_root_refused")
         elif kind == "detach_all":
             # same session, no reopen: remove every metadata object, one by one (the TOC must end up empty and clean)
             for path in sorted(self.model.meta):
